@@ -135,7 +135,7 @@ def make(seq, excl=False, shape=None, reach=False):
     return fn
 
 
-def make_run(seq, shape="plu", reach=False):
+def make_run(seq, shape="plu", reach=False, op_prio=2):
     """The same events, but delivered through real channels to the real PowerManagingActor._run select loop and the real
     _bounds_tracker task (only the construction of the battery pool in _add_system_bounds_tracker is replaced by a harness
     bounds channel).  Extra events: 'stale_partial' = PartialFailure for the FIRST request that was sent (arriving late),
@@ -163,7 +163,7 @@ def make_run(seq, shape="plu", reach=False):
             a.start()
             subs = sub_ch.new_sender()
             rr_reg = ReportRequest(source_id="r", component_ids=IDS, priority=1, set_operating_point=False)
-            rr_op = ReportRequest(source_id="o", component_ids=IDS, priority=2, set_operating_point=True)
+            rr_op = ReportRequest(source_id="o", component_ids=IDS, priority=op_prio, set_operating_point=True)
             reg_rx = registry.get_or_create(_Report, rr_reg.get_channel_name()).new_receiver(limit=100)
             op_rx = registry.get_or_create(_Report, rr_op.get_channel_name()).new_receiver(limit=100)
             await subs.send(rr_reg)
@@ -184,7 +184,7 @@ def make_run(seq, shape="plu", reach=False):
             for k, ev in enumerate(seq):
                 if ev in ("reg", "op"):
                     now = asyncio.get_running_loop().time()
-                    await psend.send(prop(ex, f"{ev[0]}{k}", 2 if ev == "op" else 1, ev == "op", now, shape))
+                    await psend.send(prop(ex, f"{ev[0]}{k}", op_prio if ev == "op" else 1, ev == "op", now, shape))
                 elif ev == "bounds":
                     b, cur = new_bounds(str(k + 1))
                     await bsend.send(b)
@@ -257,6 +257,8 @@ def instances(tier):
             ("reg", "op", "sleep62", "bounds"), ("reg", "bounds", "op", "partial"), ("reg", "sleep31", "op", "sleep31", "bounds")]
     if tier != "quick":
         runs += [("reg", "op", "reg", "stale_partial"), ("reg", "op", "success", "bounds"), ("op", "reg", "bounds", "bounds")]
+    out.append(I("run:reg-op-bounds-same-priority", "make_run", (("reg", "op", "bounds"), "plu", False, 1),
+                 "real _run loop; the regular actor and the operating-point actor have the SAME priority", budget_s=200, validate_every=500))
     for s in runs:
         out.append(I("run:" + "-".join(s), "make_run", (s,), f"real _run loop and _bounds_tracker over channels, events {s}; proposals fully specified",
                      budget_s=300, validate_every=500))
